@@ -80,12 +80,22 @@ inline auto it_pos(const It& it) -> decltype(simrt::ptr_pos(it.ptr)) { return si
 
 // ---------------------------------------------------------------------------------------------
 // custom lexer peer: scripted per op, default-constructed by the library on every term request
+// The lexer keeps scratch state in its own members, as a hand-written lexer does (nesting depth, last position...):
+// ctpg constructs the lexer object inside the call, so this state can never be seen by another call. What the
+// instance had seen before each request is part of the recorded history (C15 compares it with the call in isolation).
 struct SimLexer
 {
+    int64_t calls = 0;
+    int64_t last = -1;
+
     template<typename Iterator, typename ErrorStream>
     constexpr auto match(ctpg::match_options mo, ctpg::source_point sp, Iterator start, Iterator end, ErrorStream&)
     {
-        simrt::LexAnswer a = simrt::lex(it_pos(start), int(sp.line), int(sp.column), mo.verbose, it_pos(end));
+        int64_t entry_calls = calls, entry_last = last;
+        ++calls;
+        last = it_pos(start);
+        simrt::LexAnswer a = simrt::lex(it_pos(start), int(sp.line), int(sp.column), mo.verbose, it_pos(end), entry_calls, entry_last);
+        if (last != it_pos(start) || calls != entry_calls + 1) simrt::lexer_state_clobbered();
         if (a.idx < 0) return ctpg::recognized_term{};
         return ctpg::recognized_term(ctpg::size16_t(a.idx), size_t(a.len));
     }
@@ -121,12 +131,62 @@ struct Tok
     std::string_view sv() const { return std::string_view(p, n); }
 };
 
-// ONE functor type for every typed/custom term of the fleet, distinguished only by its state: a library that picks
+// Term payloads that are semantic values in their own right (C14 names term values first): ledgered exactly like the
+// node types, so a copy made by the library, a payload handed over twice or moved-from, a leak or a double destruction
+// of a TERM value is seen. LTok is copyable (a library-side copy is possible and is reported), MTok is move-only
+// (it must compile and work). Fleets whose value type is the trivially destructible PNode keep the trivial Tok, or
+// the cvector value stack would no longer be selected.
+#define SIM_TOK_COMMON(Self)                                                                         \
+    const char* p = nullptr;                                                                         \
+    size_t n = 0;                                                                                    \
+    uint32_t vid = 0;                                                                                \
+    bool mf = false;                                                                                 \
+    Self(const char* p_, size_t n_) : p(p_), n(n_) { vid = simrt::node_new(this); }                  \
+    ~Self() { simrt::node_del(this, vid, !mf); }                                                     \
+    Self(Self&& o) noexcept : p(o.p), n(o.n), vid(o.vid), mf(o.mf) { o.mf = true; simrt::node_move(this, vid); } \
+    Self& operator=(Self&& o) noexcept                                                               \
+    {                                                                                                \
+        if (this == &o) return *this;                                                                \
+        simrt::node_assign_over(this, vid, !mf);                                                     \
+        p = o.p; n = o.n; vid = o.vid; mf = o.mf; o.mf = true;                                       \
+        simrt::node_move(this, vid);                                                                 \
+        return *this;                                                                                \
+    }                                                                                                \
+    static constexpr bool is_ledgered = true;                                                        \
+    std::string_view sv() const { return std::string_view(p, n); }
+
+struct LTok
+{
+    SIM_TOK_COMMON(LTok)
+    LTok(const LTok& o) : p(o.p), n(o.n), mf(o.mf) { vid = simrt::node_copy(this, o.vid); }
+    LTok& operator=(const LTok& o)
+    {
+        if (this == &o) return *this;
+        simrt::node_assign_over(this, vid, !mf);
+        p = o.p; n = o.n; mf = o.mf;
+        vid = simrt::node_copy(this, o.vid);
+        return *this;
+    }
+};
+
+struct MTok
+{
+    SIM_TOK_COMMON(MTok)
+    MTok(const MTok&) = delete;
+    MTok& operator=(const MTok&) = delete;
+};
+
+template<typename T> struct is_ledgered_tok : std::false_type {};
+template<> struct is_ledgered_tok<LTok> : std::true_type {};
+template<> struct is_ledgered_tok<MTok> : std::true_type {};
+
+// ONE functor type for every typed/custom term of a parser, distinguished only by its state: a library that picks
 // a term's functor by type instead of by term would call the wrong object
-struct TokFtor
+template<typename TokT>
+struct TokFtorT
 {
     int term;
-    Tok operator()(std::string_view sv) const
+    TokT operator()(std::string_view sv) const
     {
         simrt::termf(term, sv.data(), int64_t(sv.size()));
         // term functors allocate like user code does (a std::string of the lexeme, a number conversion...): the
@@ -134,9 +194,15 @@ struct TokFtor
         char* scratch = new char[1 + (sv.size() & 7)];
         asm volatile("" : : "r"(scratch) : "memory");     // (a new/delete pair may otherwise be elided)
         delete[] scratch;
-        return Tok{ sv.data(), sv.size() };
+        return TokT{ sv.data(), sv.size() };
     }
 };
+struct Node; struct MNode; struct XNode; struct PNode;
+template<typename V> struct TokOf { using type = Tok; };
+template<> struct TokOf<Node> { using type = LTok; };
+template<> struct TokOf<XNode> { using type = LTok; };
+template<> struct TokOf<MNode> { using type = MTok; };
+template<typename V> using TokFtorFor = TokFtorT<typename TokOf<V>::type>;
 
 // ---------------------------------------------------------------------------------------------
 // instrumented value types
@@ -327,13 +393,29 @@ namespace detail
             if constexpr (V::is_ledgered) simrt::node_lvalue_arg(child.vid);
             if constexpr (std::is_copy_constructible_v<V>) { V tmp(child); add(std::move(tmp)); }
         }
-        template<typename T> void add(ctpg::term_value<T>& t) { add(ctpg::term_value<T>(t)); }
-        template<typename T> void add(const ctpg::term_value<T>& t) { add(ctpg::term_value<T>(t)); }
+        template<typename T> void add(ctpg::term_value<T>& t)
+        {
+            if constexpr (is_ledgered_tok<T>::value) simrt::node_lvalue_arg(t.get_value().vid);
+            if constexpr (std::is_copy_constructible_v<T>) add(ctpg::term_value<T>(t)); else add(std::move(t));
+        }
+        template<typename T> void add(const ctpg::term_value<T>& t)
+        {
+            if constexpr (is_ledgered_tok<T>::value) simrt::node_lvalue_arg(t.get_value().vid);
+            if constexpr (std::is_copy_constructible_v<T>) add(ctpg::term_value<T>(t));
+        }
         void add(ctpg::no_type&) { error_leaf(); }
         void add(const ctpg::no_type&) { error_leaf(); }
         void add(ctpg::term_value<std::string_view>&& t) { leaf(t.get_value(), t.get_line(), t.get_column()); }
         void add(ctpg::term_value<char>&& t) { char c = t; ctpg::source_point sp = t.get_sp(); leaf(std::string_view(&c, 1), sp.line, sp.column); }   // conversion operator + get_sp()
         void add(ctpg::term_value<Tok>&& t) { leaf(t.get_value().sv(), t.get_line(), t.get_column()); }
+        // a ledgered term value is consumed the way a by-value functor parameter consumes it: moved out of the stack slot
+        template<typename T, std::enable_if_t<is_ledgered_tok<T>::value, int> = 0>
+        void add(ctpg::term_value<T>&& t)
+        {
+            simrt::node_use(t.get_value().vid, t.get_value().mf);
+            ctpg::term_value<T> own(std::move(t));
+            leaf(own.get_value().sv(), own.get_line(), own.get_column());
+        }
         void error_leaf()
         {
             h = node_digest_add(h, error_leaf_digest());
